@@ -129,7 +129,10 @@ bool PyTreeSpec::IsPrefix(const PyTreeSpec &other, const bool &strict) const {
                     EXPECT_EQ(reordered_other_offsets.front(),
                               b->num_nodes,
                               "PyTreeSpec traversal out of range.");
-                    auto original_b = other.m_traversal.crbegin() + (b - other_traversal.crbegin());
+                    // NOTE: copy from a snapshot of the working copy rather than from
+                    // `other.m_traversal`: an enclosing dict may already have been reordered.
+                    const std::vector<Node> subtree(b, b + b->num_nodes);
+                    const auto original_b = subtree.cbegin();
                     for (const auto &[i, j] : reordered_index_to_index) {
                         std::copy(original_b + other_offsets[j + 1],
                                   original_b + other_offsets[j],
